@@ -122,10 +122,17 @@ Definition jv_result (r : result) : jv :=
       end
   end.
 
+(* [low]: the object's pid equals the cached lowest pid (psutil._LOWEST_PID); [reu]: the pid now belongs to another process *)
+Definition with_params (w : world) (low reu : bool) : world :=
+  {| w_base := w_base w; w_self := w_self w; w_vanish := w_vanish w; w_half := w_half w; w_deny := w_deny w;
+     w_ovanish := w_ovanish w;
+     w_param := fun n => match n with 2%nat => low | 3%nat => reu | _ => w_param w n end;
+     w_pcur := w_pcur w; w_parent := w_parent w; w_kids := w_kids w |}.
+
 (* a history of calls on ONE fresh Process object: [outcomes; whole access log; gone at the end?] *)
 Definition run_hist_case (y : layout) (ps : list prog) (kind : nat) (v : option nat) (half : bool) (denied : list nat)
-                         (ov : list (string * nat)) (longname guess : bool) : jv :=
-  let w := mk_world y kind v half denied ov longname guess in
+                         (ov : list (string * nat)) (longname guess low reu : bool) : jv :=
+  let w := with_params (mk_world y kind v half denied ov longname guess) low reu in
   let rs := run_hist w ps st0 in
   let s := last (map snd rs) st0 in
   JL [ JL (map (fun x => jv_result (fst x)) rs); JL (map (jv_access y) (rev (s_log s))); jbool (gone w s) ].
@@ -133,7 +140,7 @@ Definition run_hist_case (y : layout) (ps : list prog) (kind : nat) (v : option 
 (* one call of script [p] on a fresh Process object in the given world:
    [outcome; access log; gone at the end?; outcome allowed by the property?] *)
 Definition run_case (y : layout) (p : prog) (kind : nat) (v : option nat) (half : bool) (denied : list nat)
-                    (ov : list (string * nat)) (longname guess : bool) : jv :=
-  let w := mk_world y kind v half denied ov longname guess in
+                    (ov : list (string * nat)) (longname guess low : bool) : jv :=
+  let w := with_params (mk_world y kind v half denied ov longname guess) low false in
   let '(r, s) := run w p st0 in
   JL [ jv_result r; JL (map (jv_access y) (rev (s_log s))); jbool (gone w s); jbool (allowedb r (gone w s)) ].
